@@ -57,6 +57,15 @@ def always_calls(e, pred):
     return False
 
 
+def _subst_s(t, name):
+    """rename the placeholder ('param', 's') to the constructor's actual string parameter"""
+    if t == ("param", "s"):
+        return ("param", name)
+    if isinstance(t, tuple):
+        return tuple(_subst_s(x, name) for x in t)
+    return t
+
+
 def run(ctx):
     fs = facts.load("core")
     c = fs["pest_typed"]
@@ -261,6 +270,67 @@ def run(ctx):
                 else:
                     rmc.violate(key, "measures %s, expected the `%s` part of the line" % (fields or "something else", want), c.loc(n.get("sp")))
     rmc.require(5, "repeat sites")
+
+    # which piece is which: `former` is what precedes the marked column(s), `middle` the marked part, `latter` the rest
+    rsp_ = ctx.rule("R14-SPLIT", "Partition / Partition2 cut the line at the given column(s): former = text before the (first) column, middle = "
+                                 "text between the columns, latter = text from the (last) column on")
+
+    def split_terms(b):
+        """field name -> symbolic origin, from the `let (a, b) = x.split_at(k)` chain of a constructor"""
+        env = {}
+        for p_ in b.get("params", []):
+            if p_.get("k") == "bind":
+                env[p_["var"]] = ("param", p_.get("name"))
+
+        def val(e):
+            while e["k"] in ("addr_of", "use", "cast") or (e["k"] == "unary" and e.get("op") == "*"):
+                e = e["e"]
+            if e["k"] == "local":
+                return env.get(e["var"], ("?", e.get("name")))
+            if e["k"] in ("call", "mcall") and e.get("callee"):
+                pth = strip_generics(e["callee"]["path"])
+                a = ([e["recv"]] if e["k"] == "mcall" else []) + e["args"]
+                if pth.endswith("str>::split_at") and len(a) == 2:
+                    return ("split", val(a[0]), val(a[1]))
+                if pth == VIS and len(a) == 1:
+                    return val(a[0])
+                if pth.rsplit("::", 1)[-1] in ("as_str", "as_ref", "deref", "borrow", "to_owned", "to_string", "into") and len(a) == 1:
+                    return val(a[0])
+            return ("?", e["k"])
+        body = b["value"]
+        for st in body.get("stmts", []):
+            if st["k"] == "let" and "init" in st:
+                v = val(st["init"])
+                pat = st["pat"]
+                if pat["k"] == "tuple":
+                    for i, q in enumerate(pat["ps"]):
+                        if q["k"] == "bind":
+                            env[q["var"]] = ("part", i, v)
+                elif pat["k"] == "bind":
+                    env[pat["var"]] = v
+        lit = [n for n in walk(body) if n["k"] == "struct"]
+        return {f["name"]: val(f["e"]) for f in lit[0]["fields"]} if lit else {}
+
+    S0 = ("param", "s")
+    for ty, want in (("Partition", lambda ps: {"former": ("part", 0, ("split", S0, ("param", ps[2]))), "latter": ("part", 1, ("split", S0, ("param", ps[2])))}),
+                     ("Partition2", lambda ps: {"former": ("part", 0, ("split", ("part", 0, ("split", S0, ("param", ps[3]))), ("param", ps[2]))),
+                                                "middle": ("part", 1, ("split", ("part", 0, ("split", S0, ("param", ps[3]))), ("param", ps[2]))),
+                                                "latter": ("part", 1, ("split", S0, ("param", ps[3])))})):
+        fid = next((f for f in g.bodies if strip_generics(f) == "pest_typed::formatter::%s::new" % ty), None)
+        if fid is None:
+            rsp_.violate(ty + "::new", "constructor missing (anchor lost)")
+            continue
+        b = g.bodies[fid]
+        ps = [p_.get("name") for p_ in b.get("params", [])]
+        got = split_terms(b)
+        w = want(ps)
+        w = {k_: _subst_s(v_, ps[1]) for k_, v_ in w.items()}
+        bad = [k_ for k_ in w if got.get(k_) != w[k_]]
+        if bad:
+            rsp_.violate(ty + "::new", "field(s) %s do not hold the piece of the line their name says" % bad, c.loc(b["value"].get("sp")))
+        else:
+            rsp_.inst(ty + "::new", c.loc(b["value"].get("sp")), "ok", {"fields": sorted(w)})
+    rsp_.require(2, "constructors")
 
     # 1-based numbers: a displayed number is (0-based index of the line shown in that row) + 1
     rnum = ctx.rule("R14-NUMBER", "every line number the snippet writers print is the 0-based index of the line in that row plus one: `X.line + 1` "
